@@ -385,7 +385,8 @@ class Tr:
         f = node.func
         fname = ast.unparse(f)
         args = node.args
-        if node.keywords:
+        sibling = isinstance(f, ast.Attribute) and isinstance(f.value, ast.Name) and f.value.id == "self" and f.attr in self.funcs
+        if node.keywords and not sibling:
             raise Untranslatable("keyword arguments in call %s" % fname)
         if fname == "float" and len(args) == 1:
             if isinstance(args[0], ast.Constant) and isinstance(args[0].value, str):
@@ -444,14 +445,37 @@ class Tr:
             if ta == B:
                 return self.coerce(a, B, Z), Z
             raise Untranslatable("int() of a non-integer")
-        # self._helper() : inline a sibling method without arguments (besides self)
-        if isinstance(f, ast.Attribute) and isinstance(f.value, ast.Name) and f.value.id == "self" and f.attr in self.funcs and not args:
+        # self._helper(args): inline a sibling method, its parameters bound to the translated arguments
+        if isinstance(f, ast.Attribute) and isinstance(f.value, ast.Name) and f.value.id == "self" and f.attr in self.funcs:
             if self.depth > 6:
                 raise Untranslatable("inlining too deep")
+            callee = self.funcs[f.attr]
+            if callee.args.vararg or callee.args.kwarg:
+                raise Untranslatable("helper %s with *args / **kwargs" % f.attr)
+            params = [a.arg for a in callee.args.args if a.arg != "self"]
+            if len(node.args) > len(params):
+                raise Untranslatable("too many arguments for helper %s" % f.attr)
+            cenv = dict(self.base_env) if not params else {}
+            cenv["#n"] = env.get("#n", 0) + 50 * (self.depth + 1)      # keep bound names apart from the caller's
+            given = dict(zip(params, node.args))
+            for kwd in node.keywords:
+                if kwd.arg is None or kwd.arg not in params or kwd.arg in given:
+                    raise Untranslatable("keyword arguments of helper %s" % f.attr)
+                given[kwd.arg] = kwd.value
+            defaults = dict(zip(params[len(params) - len(callee.args.defaults):], callee.args.defaults))
+            for pn in params:
+                src_node, src_env = (given[pn], env) if pn in given else (defaults.get(pn), {})
+                if src_node is None:
+                    raise Untranslatable("missing argument %s of helper %s" % (pn, f.attr))
+                try:
+                    if isinstance(src_node, ast.Constant) and src_node.value is None:
+                        raise Untranslatable("None")
+                    cenv[pn] = self.expr(src_node, src_env)
+                except Untranslatable as ex:
+                    cenv[pn] = Poison("argument %s: %s" % (pn, ex))
             self.depth += 1
             try:
-                base = dict(self.base_env)
-                return self.block(list(self.funcs[f.attr].body), base, "function")
+                return self.block(list(callee.body), cenv, "function")
             finally:
                 self.depth -= 1
         raise Untranslatable("call %s" % fname)
@@ -784,6 +808,14 @@ class VecTr(Tr):
         if fname in ("F.linear", "torch.nn.functional.linear") and len(args) in (2, 3) and not kw:
             x, tx = self.expr(args[0], env)
             W, tW = self.expr(args[1], env)
+            if tx == "BV" and tW == "Mt":                  # F.linear(h, W.t(), b) = h @ W + b
+                r = "(vecmatb ROps %s %s %s)" % (self.spec["ncols"], x, W)
+                if len(args) == 3:
+                    c, tc = self.expr(args[2], env)
+                    if tc != "V":
+                        raise Untranslatable("F.linear bias of type %s" % tc)
+                    r = "(vadd ROps %s %s)" % (r, c)
+                return r, "V"
             if tx == "BV" and tW == "M":
                 if len(args) == 3:
                     c, tc = self.expr(args[2], env)
@@ -798,7 +830,7 @@ class VecTr(Tr):
                 return "(map (softplus ROps) %s)" % x, "V"
             if tx == F:
                 return "(softplus ROps %s)" % x, F
-        if fname in ("torch.sigmoid",) and len(args) == 1 and not kw:
+        if fname in ("torch.sigmoid",) and len(args) == 1 and set(kw) <= {"out"}:
             x, tx = self.expr(args[0], env)
             if tx == "V":
                 return "(map (sigmoid ROps) %s)" % x, "V"
